@@ -155,6 +155,27 @@ pub fn codec_table(bytes: &[u8]) -> String {
     if rows.is_empty() { "-".into() } else { rows.join(";") }
 }
 
+/// Does some entry of `bytes` decode differently under the four consumer APIs of `read_all`?  Real decoders are
+/// schedule dependent on DAMAGED streams (a zstd frame whose declared content size was altered ends quietly
+/// through small buffers and reports "Data corruption detected" through large ones), while the model's decoder
+/// is a table raw bytes -> outcome.  Such cases are left out of the correspondence (counted in `dist`); what a
+/// completed read may return on damaged data is C04's subject.
+pub fn schedule_dependent(bytes: &[u8]) -> bool {
+    let b = bytes.to_vec();
+    catch(move || {
+        let mut a = match zip::ZipArchive::new(Cursor::new(b)) { Ok(a) => a, Err(_) => return false };
+        for i in 0..a.len().min(64) {
+            let mut seen: Option<String> = None;
+            for api in 0..4u32 {
+                reset_read_api(api);
+                let r = match a.by_index(i) { Ok(mut f) => read_all(&mut f), Err(_) => break };
+                match &seen { None => seen = Some(r), Some(s) => if *s != r { return true; } }
+            }
+        }
+        false
+    }).unwrap_or(false)
+}
+
 pub fn run_seek(bytes: Vec<u8>, pw: Option<Vec<u8>>) -> String {
     reset_read_api(bytes.len() as u32);
     let r = catch(move || {
@@ -358,6 +379,93 @@ impl<'a> Read for ChunkReader<'a> {
     }
 }
 
+/// The consumer of `read.streamc`: ask for `k` bytes in total with buffers of `min(k - got, 65536)`, again and
+/// again until it has them, end-of-file, or an error.
+pub fn consume_k(f: &mut dyn Read, k: usize) -> (Vec<u8>, Option<std::io::Error>) {
+    let mut got: Vec<u8> = vec![];
+    while got.len() < k {
+        let want = (k - got.len()).min(65536);
+        let mut b = vec![0u8; want];
+        match f.read(&mut b) {
+            Ok(0) => break,
+            Ok(n) => got.extend_from_slice(&b[..n]),
+            Err(e) => return (got, Some(e)),
+        }
+    }
+    (got, None)
+}
+
+/// The codec library applied DIRECTLY (not through the crate) to the compressed stream `raw`, arriving in reads of
+/// at most `chunk` bytes behind a `Take`, driven by the consumer `consume_k(k)`: the bytes it hands out before
+/// it reports an error (`Ext.decodeBefore` of the model; how many there are depends on the decoder's buffering,
+/// hence on `chunk` and `k`).
+pub fn direct_before(method: u16, raw: &[u8], chunk: usize, k: usize) -> Vec<u8> {
+    let mut src = ChunkReader { inner: Cursor::new(raw), chunk };
+    let t = (&mut src as &mut dyn Read).take(raw.len() as u64);
+    let r = catch(std::panic::AssertUnwindSafe(move || match method {
+        8 => consume_k(&mut flate2::read::DeflateDecoder::new(t), k).0,
+        12 => consume_k(&mut bzip2::read::BzDecoder::new(t), k).0,
+        93 => match zstd::stream::read::Decoder::new(t) { Ok(mut d) => consume_k(&mut d, k).0, Err(_) => vec![] },
+        _ => vec![],
+    }));
+    r.unwrap_or_default()
+}
+
+/// The compressed streams of the entries a STREAMING reader meets, in order: (index, method, bytes).  The crate is
+/// used only to locate them (where its reader stands when `visit_file` is called, and the compressed size it
+/// reports); decoding is the codec library's.
+pub fn stream_raws(bytes: &[u8]) -> Vec<(usize, u16, Vec<u8>)> {
+    let b = bytes.to_vec();
+    catch(move || {
+        struct Pos<'a> { inner: Cursor<&'a [u8]>, pos: std::rc::Rc<std::cell::Cell<u64>> }
+        impl<'a> Read for Pos<'a> {
+            fn read(&mut self, buf: &mut [u8]) -> std::io::Result<usize> {
+                let n = self.inner.read(buf)?;
+                self.pos.set(self.pos.get() + n as u64);
+                Ok(n)
+            }
+        }
+        struct C<'a> { pos: std::rc::Rc<std::cell::Cell<u64>>, bytes: &'a [u8], i: usize, rows: Vec<(usize, u16, Vec<u8>)> }
+        impl<'a> zip::unstable::stream::ZipStreamVisitor for C<'a> {
+            fn visit_file(&mut self, f: &mut zip::read::ZipFile<'_>) -> zip::result::ZipResult<()> {
+                let m = method_u16(f.compression());
+                let st = self.pos.get() as usize;
+                let en = (st as u64).saturating_add(f.compressed_size()).min(self.bytes.len() as u64) as usize;
+                if st <= en { self.rows.push((self.i, m, self.bytes[st..en].to_vec())); }
+                self.i += 1;
+                Ok(())
+            }
+            fn visit_additional_metadata(&mut self, _m: &zip::unstable::stream::ZipStreamFileMetadata) -> zip::result::ZipResult<()> { Ok(()) }
+        }
+        let pos = std::rc::Rc::new(std::cell::Cell::new(0u64));
+        let mut c = C { pos: pos.clone(), bytes: &b, i: 0, rows: vec![] };
+        let _ = zip::unstable::stream::ZipStreamReader::new(Pos { inner: Cursor::new(&b[..]), pos }).visit(&mut c);
+        c.rows
+    })
+    .unwrap_or_default()
+}
+
+/// `codec_table` plus, for every streamed entry whose compressed stream the codec library REJECTS, one row
+/// `B:<method>:<crc32(raw)>:<len(raw)>:<k>:<hex>`: what the library hands out before its error under this op's
+/// schedule (underlying reads of `chunk` bytes, the consumer asking for `k = pattern[i]` bytes).
+pub fn codec_table_streamc(bytes: &[u8], pattern: &[usize], chunk: usize) -> String {
+    let mut t = codec_table(bytes);
+    let mut rows: Vec<String> = vec![];
+    for (i, m, raw) in stream_raws(bytes) {
+        if !(m == 8 || m == 12 || m == 93) { continue; }
+        let damaged = !matches!(catch({ let raw = raw.clone(); move || direct_decode(m, &raw).is_ok() }), Ok(true));
+        if !damaged { continue; }
+        let k = if pattern.is_empty() { 0 } else { pattern[i % pattern.len()] };
+        let before = direct_before(m, &raw, chunk, k);
+        let row = format!("B:{m}:{}:{}:{k}:{}", crc32fast::hash(&raw), raw.len(), hex(&before));
+        if !rows.contains(&row) { rows.push(row); }
+    }
+    if !rows.is_empty() {
+        if t == "-" { t = rows.join(";"); } else { t = format!("{t};{}", rows.join(";")); }
+    }
+    t
+}
+
 /// Streaming reader with a per-entry consumption pattern: read `k` bytes of each entry, then drop it.
 pub fn run_streamc(bytes: Vec<u8>, pattern: Vec<usize>, chunk: usize) -> String {
     let r = catch(move || {
@@ -370,17 +478,8 @@ pub fn run_streamc(bytes: Vec<u8>, pattern: Vec<usize>, chunk: usize) -> String 
                 Err(e) => return format!("end={}", cls_z(&e)),
                 Ok(None) => return format!("end=ok files={i}{out}"),
                 Ok(Some(mut f)) => {
-                    let mut got: Vec<u8> = vec![];
-                    let mut err = None;
-                    while got.len() < k {
-                        let want = (k - got.len()).min(65536);
-                        let mut b = vec![0u8; want];
-                        match f.read(&mut b) {
-                            Ok(0) => break,
-                            Ok(n) => got.extend_from_slice(&b[..n]),
-                            Err(e) => { err = Some(cls_io(&e)); break; }
-                        }
-                    }
+                    let (got, err) = consume_k(&mut f, k);
+                    let err = err.map(|e| cls_io(&e));
                     let res = err.unwrap_or_else(|| format!("ok:{}:{}", crc32fast::hash(&got), got.len()));
                     out += &format!(" | {} got={}", show_meta(&f), res);
                     i += 1;
@@ -489,6 +588,46 @@ fn c10_refused(r: &mut Rng) -> (Vec<u8>, usize) {
         }
         return (mkzip::build(&l).bytes, j);
     }
+}
+
+/// C10 / review finding F5: one LARGE compressed entry (`n` bytes of content) whose compressed stream is damaged
+/// near its END (two adjacent bytes changed within the last 3000), followed by a small intact Stored entry.  The
+/// decoders deliver what precedes the damage before they report it: a consumer that asks for part of the entry
+/// receives data, and whatever it did the drop-time drain must leave the stream on the second entry.
+/// `reject`: search (deterministically, up to 400 candidates) for a damage the codec library REJECTS - content
+/// made of repeated words, so that the stream has matches and several blocks -; otherwise content with 6 bits of
+/// entropy per byte and the first candidate (the library usually decodes it to wrong bytes: only the CRC tells).
+/// Returns (archive, length of the content, content of the second entry).
+pub fn damaged_large(r: &mut Rng, method: u16, n: usize, reject: bool) -> (Vec<u8>, usize, Vec<u8>) {
+    let content: Vec<u8> = if reject {
+        let words: Vec<Vec<u8>> = (0..150).map(|_| { let l = r.range(2, 12) as usize; (0..l).map(|_| b"abcdefghijklmnopqrstuvwxyz"[r.below(26) as usize]).collect() }).collect();
+        let mut c = vec![];
+        while c.len() < n { c.extend_from_slice(&words[r.below(150) as usize]); c.push(if r.chance(1, 9) { b'\n' } else { b' ' }); if r.chance(1, 40) { let k = r.below(30) as usize; c.extend_from_slice(&r.bytes(k)); } }
+        c.truncate(n);
+        c
+    } else {
+        (0..n).map(|_| b"ABCDEFGHIJKLMNOPQRSTUVWXYZabcdefghijklmnopqrstuvwxyz0123456789+/"[r.below(64) as usize]).collect()
+    };
+    let mut e = Entry::stored(b"large-damaged", &content);
+    e.method = method;
+    e.data = compress(method, &content);
+    let len = e.data.len();
+    if len > 8 {
+        for attempt in 0..400 {
+            let p = len - 2 - r.below((len as u64 - 2).min(3000)) as usize;
+            let (m0, m1) = (1 + r.below(255) as u8, 1 + r.below(255) as u8);
+            e.data[p] ^= m0;
+            e.data[p + 1] ^= m1;
+            if !reject || attempt == 399 { break; }
+            let raw = e.data.clone();
+            if !matches!(catch(move || direct_decode(method, &raw).is_ok()), Ok(true)) { break; }
+            e.data[p] ^= m0;
+            e.data[p + 1] ^= m1;
+        }
+    }
+    let after = { let n = r.range(1, 40) as usize; r.bytes(n) };
+    let l = Layout::new(vec![e, Entry::stored(b"after", &after)]);
+    (mkzip::build(&l).bytes, n, after)
 }
 
 // ------------------------------------------------------------------------------------------
@@ -611,6 +750,90 @@ pub fn rand_layout(r: &mut Rng) -> (Layout, String) {
     (l, e)
 }
 
+/// F7: layouts `rand_layout` (and the Lean `Spec.Zip.Layout`) cannot express, all of them well-formed and read
+/// correctly by conforming readers: the central directory lists the entries in another order than the local
+/// records lie in the file; the central ZIP64 record sits behind other extra records; it carries the 4-byte
+/// disk-start field; a forced ZIP64 end record next to a plain end record that keeps the real values; an
+/// extensible data sector in the ZIP64 end record.  Returns the layout, the expectation (entries in CENTRAL
+/// order) and the features used.
+pub fn rand_layout_g(r: &mut Rng) -> (Layout, String, Vec<&'static str>) {
+    let (mut l, e) = loop {
+        let (l, e) = rand_layout(r);
+        if l.entries.len() >= 2 || (l.entries.len() == 1 && r.chance(1, 4)) { break (l, e); }
+    };
+    let n = l.entries.len();
+    let mut feats = vec![];
+    let mut order: Vec<usize> = (0..n).collect();
+    if n >= 2 && r.chance(2, 3) {
+        match r.below(3) {
+            0 => order.reverse(),
+            1 => { let k = r.range(1, n as u64) as usize; order.rotate_left(k); }
+            _ => { for i in (1..n).rev() { let j = r.below(i as u64 + 1) as usize; order.swap(i, j); } }
+        }
+        if order.iter().enumerate().any(|(i, j)| i != *j) { feats.push("order"); l.cd_order = Some(order.clone()); }
+    }
+    for e in l.entries.iter_mut() {
+        if r.chance(1, 2) {
+            // 1..3 unknown records, the ZIP64 record (made non-empty) behind the first 1..k of them
+            let k = r.range(1, 4) as usize;
+            let mut x = vec![];
+            for _ in 0..k {
+                let id = *r.pick(&[0x5455u16, 0x7875, 0xcafe, 0x000a]);
+                let pl = { let n = r.below(10) as usize; r.bytes(n) };
+                x.extend_from_slice(&id.to_le_bytes());
+                x.extend_from_slice(&(pl.len() as u16).to_le_bytes());
+                x.extend_from_slice(&pl);
+            }
+            e.central_extra = x;
+            if e.zip64_central == (false, false, false) { e.zip64_central = *r.pick(&[(true, false, false), (false, true, false), (false, false, true), (true, true, false), (true, true, true), (false, true, true), (true, false, true)]); }
+            e.zip64_central_pos = r.range(1, k as u64 + 1) as usize;
+            if !feats.contains(&"z64pos") { feats.push("z64pos"); }
+        }
+        if r.chance(1, 4) {
+            e.zip64_disk = Some(0);
+            if !feats.contains(&"z64disk") { feats.push("z64disk"); }
+        }
+    }
+    if r.chance(1, 3) {
+        l.zip64_eocd = true;
+        l.trailing.clear();
+        l.prefix.truncate(3000);
+        if r.chance(2, 3) { l.eocd_unsaturated = true; feats.push("eocd-unsaturated"); }
+        if r.chance(2, 3) {
+            // APPNOTE 4.3.14.2: header id (2 bytes), data size (4 bytes), data
+            let pl = { let n = r.below(30) as usize; r.bytes(n) };
+            let mut x = 0x0065u16.to_le_bytes().to_vec();
+            x.extend_from_slice(&(pl.len() as u32).to_le_bytes());
+            x.extend_from_slice(&pl);
+            l.end64_ext = x;
+            feats.push("end64-ext");
+        }
+        // with ZIP64 records the locator names the position of the ZIP64 end record, so bytes between the last
+        // central record and that record are harmless (without ZIP64 records they would read as a prefix)
+        if r.chance(1, 3) { l.gap_before_end = { let n = r.range(1, 12) as usize; r.bytes(n) }; feats.push("end64-gap"); }
+    }
+    let parts: Vec<&str> = e.split(';').collect();
+    let mut exp: Vec<String> = parts[..3].iter().map(|s| s.to_string()).collect();
+    exp[1] = l.prefix.len().to_string();
+    for &i in &order { exp.push(parts[3 + i].to_string()); }
+    (l, exp.join(";"), feats)
+}
+
+/// F7 (d): layouts APPNOTE does not allow and no reader can be expected to serve - bytes between two central
+/// records, or between the central directory and the end records (indistinguishable from a prefix).  No
+/// expectation: the model must answer the same as the implementation, and nothing may panic.
+pub fn rand_layout_nonconforming(r: &mut Rng) -> (Layout, &'static str) {
+    let mut l = loop { let (l, _) = rand_layout(r); if !l.entries.is_empty() { break l; } };
+    if r.chance(1, 2) {
+        let i = r.below(l.entries.len() as u64) as usize;
+        l.entries[i].cd_gap_before = { let n = r.range(1, 12) as usize; r.bytes(n) };
+        (l, "cdgap")
+    } else {
+        l.gap_before_end = { let n = r.range(1, 12) as usize; r.bytes(n) };
+        (l, "endgap")
+    }
+}
+
 /// An archive produced by the crate's own writer.
 pub fn writer_archive(r: &mut Rng) -> (Vec<u8>, String) {
     use std::io::Write;
@@ -623,11 +846,52 @@ pub fn writer_archive(r: &mut Rng) -> (Vec<u8>, String) {
         let method = *r.pick(&[zip::CompressionMethod::Stored, zip::CompressionMethod::Deflated, zip::CompressionMethod::Bzip2, zip::CompressionMethod::Zstd]);
         let t = zip::DateTime::from_msdos(0x21 + (r.below(100) as u16) * 512, r.below(0xbf7d) as u16);
         let o = FileOptions::default().compression_method(method).last_modified_time(t).unix_permissions(r.below(512) as u32).large_file(r.chance(1, 8));
-        match r.below(8) {
+        match r.below(11) {
             0 => {
                 let _ = w.add_directory(name.clone(), o);
                 let nm = if name.ends_with('/') || name.ends_with('\\') { name.clone() } else { format!("{name}/") };
                 exp.push(format!("{}:0:0:0", hex(nm.as_bytes())));
+            }
+            // the rest of the writer's unencrypted alphabet (review finding F10): aligned entries, extra-data mode
+            // (local only / local then central-only part), raw copies from another archive
+            8 => {
+                let content = rand_content(r);
+                let align = *r.pick(&[0u16, 1, 2, 4, 16, 64, 512, 4096]);
+                if w.start_file_aligned(name.clone(), o, align).is_ok() {
+                    let _ = w.write_all(&content);
+                    exp.push(format!("{}:{}:{}:{}", hex(name.as_bytes()), method_u16(method), crc32fast::hash(&content), content.len()));
+                }
+            }
+            9 => {
+                let content = rand_content(r);
+                let rec = |r: &mut Rng| { let id = *r.pick(&[0xcafeu16, 0x5455, 0x7875, 0x6375]); let pl = { let n = r.below(12) as usize; r.bytes(n) }; let mut x = id.to_le_bytes().to_vec(); x.extend_from_slice(&(pl.len() as u16).to_le_bytes()); x.extend_from_slice(&pl); x };
+                if w.start_file_with_extra_data(name.clone(), o).is_ok() {
+                    let mut ok = true;
+                    if r.chance(3, 4) { let x = rec(r); ok &= w.write_all(&x).is_ok(); }
+                    if r.chance(1, 2) { ok &= w.end_local_start_central_extra_data().is_ok(); if r.chance(1, 2) { let x = rec(r); ok &= w.write_all(&x).is_ok(); } }
+                    ok &= w.end_extra_data().is_ok();
+                    if ok {
+                        let _ = w.write_all(&content);
+                        exp.push(format!("{}:{}:{}:{}", hex(name.as_bytes()), method_u16(method), crc32fast::hash(&content), content.len()));
+                    }
+                }
+            }
+            10 => {
+                let content = rand_content(r);
+                let src = {
+                    let mut sw = zip::ZipWriter::new(Cursor::new(Vec::new()));
+                    let so = FileOptions::default().compression_method(method).last_modified_time(t).large_file(r.chance(1, 8));
+                    let _ = sw.start_file("source-name", so);
+                    let _ = sw.write_all(&content);
+                    sw.finish().unwrap().into_inner()
+                };
+                if let Ok(mut sa) = zip::ZipArchive::new(Cursor::new(src)) {
+                    let copied = match sa.by_index_raw(0) {
+                        Ok(f) => if r.chance(1, 2) { w.raw_copy_file_rename(f, name.clone()).is_ok() } else { let n = f.name().to_string(); w.raw_copy_file(f).is_ok() && { exp.push(format!("{}:{}:{}:{}", hex(n.as_bytes()), method_u16(method), crc32fast::hash(&content), content.len())); false } },
+                        Err(_) => false,
+                    };
+                    if copied { exp.push(format!("{}:{}:{}:{}", hex(name.as_bytes()), method_u16(method), crc32fast::hash(&content), content.len())); }
+                }
             }
             _ => {
                 let content = rand_content(r);
@@ -640,7 +904,15 @@ pub fn writer_archive(r: &mut Rng) -> (Vec<u8>, String) {
     }
     let comment = if r.chance(1, 3) { b"made by the writer".to_vec() } else { vec![] };
     w.set_raw_comment(comment.clone());
-    let bytes = w.finish().unwrap().into_inner();
+    let bytes = match w.finish() {
+        Ok(c) => c.into_inner(),
+        Err(_) => {
+            // cannot happen with the calls above (every extra record is well-formed and unreserved); should the
+            // crate refuse one, do not abort the generator: an empty archive instead
+            std::mem::forget(w);
+            return (zip::ZipWriter::new(Cursor::new(Vec::new())).finish().unwrap().into_inner(), "0;0;;".into());
+        }
+    };
     (bytes, format!("{};0;{};{}", exp.len(), hex(&comment), exp.join(";")))
 }
 
@@ -776,6 +1048,10 @@ impl Stream for ReadStream {
         let mut napp = 0u64;
         let mut push = |g: &mut GenOut, kind: &str, bytes: &[u8], expect: Option<String>, stream_too: bool| {
             let codec = codec_table(bytes);
+            if codec != "-" && expect.is_none() && schedule_dependent(bytes) {
+                *g.dist.entry(format!("gen.skipped.schedule-dependent-decoder.{kind}")).or_insert(0) += 1;
+                return;
+            }
             let e = expect.map(|e| format!(" expect={e}")).unwrap_or_default();
             g.push(&format!("seek.{kind}"), format!("read.seek bytes={} codec={codec}{e}", hex(bytes)));
             if stream_too {
@@ -795,6 +1071,24 @@ impl Stream for ReadStream {
             let b = mkzip::build(&l);
             push(&mut g, "builder", &b.bytes, Some(e), r.chance(1, 3));
         }
+        // (a2) F7: well-formed layouts beyond `Spec.Zip.Layout`: permuted central directory, ZIP64 record behind
+        // other extra records / with the disk-start field, unsaturated end record next to forced ZIP64 records,
+        // extensible data sector; (a3) non-conforming gaps inside / behind the central directory (no expectation)
+        for _ in 0..300 * scale {
+            idx += 1;
+            let mut r = super::rng_for(seed, "read.wfg", idx);
+            let (l, e, feats) = rand_layout_g(&mut r);
+            let b = mkzip::build(&l);
+            for f in &feats { *g.dist.entry(format!("gen.feature.{f}")).or_insert(0) += 1; }
+            push(&mut g, "builder.g", &b.bytes, Some(e), r.chance(1, 3));
+        }
+        for _ in 0..60 * scale {
+            idx += 1;
+            let mut r = super::rng_for(seed, "read.nc", idx);
+            let (l, kind) = rand_layout_nonconforming(&mut r);
+            let b = mkzip::build(&l);
+            push(&mut g, &format!("nonconforming.{kind}"), &b.bytes, None, false);
+        }
         // (b) the crate's writer
         for _ in 0..200 * scale {
             idx += 1;
@@ -812,9 +1106,9 @@ impl Stream for ReadStream {
                 l.prefix.clear();
                 mkzip::build(&l).bytes
             };
-            let codec = codec_table(&b);
             let pat = match r.below(7) { 0 => "0".to_string(), 1 => "1".into(), 2 => "5,0,1000000".into(), 3 => "1000000".into(), 4 => format!("{}", r.below(2000)), 5 => "0,1000000".into(), _ => format!("{},{},{}", r.below(40), r.below(3), r.below(100000)) };
             let inner = *r.pick(&[0u64, 1, 2, 7, 64, 4096, 3]);
+            let codec = codec_table_streamc(&b, &pat.split(',').filter_map(|x| x.parse().ok()).collect::<Vec<usize>>(), inner as usize);
             g.push("streamc", format!("read.streamc bytes={} codec={codec} consume={pat} inner={inner}", hex(&b)));
         }
         // (b3) C10's quantifier: archives with at least one entry from the writer and the builder; per-entry
@@ -843,6 +1137,41 @@ impl Stream for ReadStream {
             let inner = [0u64, 1, 2, 3, 7, 64, 4096][(k % 7) as usize];
             g.push("streamc.refused", format!("read.streamc bytes={} codec={codec} consume={pat} inner={inner} refuse={j}", hex(&b)));
             g.push("stream.refused", format!("read.stream bytes={} codec={codec} refuse={j}", hex(&b)));
+        }
+        // (b4) review finding F5: damaged LARGE compressed entries (damage near the end), k from {0, 1, k, all-1,
+        // all, all+1}; the model is told what the codec library hands out before its error (`B:` rows)
+        {
+            let methods: &[u16] = &[8, 12, 93];
+            let ncase = if tier == "quickx" { 6 } else { 24 * scale.min(4) };
+            for c in 0..ncase {
+                idx += 1;
+                let mut r = super::rng_for(seed, "read.dmg", idx);
+                let method = methods[((c / 6) % 3) as usize];
+                let method = if tier == "quickx" { methods[(c % 3) as usize] } else { method };
+                // zstd blocks hold up to 128 KiB: several blocks are needed for data to come out before the damage
+                let n = if method == 93 && c % 24 < 18 { 280_000 } else { 70_000 };
+                let (b, all, after) = damaged_large(&mut r, method, n, c % 24 < 18);
+                let k = match c % 6 { 0 => 0, 1 => 1, 2 => r.range(2, all as u64 - 1) as usize, 3 => all - 1, 4 => all, _ => all + 1 };
+                let inner = [0u64, 4096, 64, 7, 0, 1][(c % 6) as usize];
+                let pat = vec![k, 1000];
+                let codec = codec_table_streamc(&b, &pat, inner as usize);
+                let class = if codec.contains(":err:") { "rejected" } else { "accepted" };
+                g.push(&format!("streamc.damaged.m{method}.{class}"), format!("read.streamc bytes={} codec={codec} consume={k},1000 inner={inner} dmg={method} after={}", hex(&b), hex(&after)));
+            }
+        }
+        // (b5) the same with SMALL entries behind a 1- or 2-byte underlying stream (the decoder sees the damage late)
+        for c in 0..(if tier == "quickx" { 3 } else { 9 * scale }) {
+            idx += 1;
+            let mut r = super::rng_for(seed, "read.dmgs", idx);
+            let method = [8u16, 12, 93][(c % 3) as usize];
+            let n = r.range(1500, 4000) as usize;
+            let (b, all, after) = damaged_large(&mut r, method, n, true);
+            let k = match (c / 3) % 3 { 0 => 1, 1 => r.range(2, all as u64 - 1) as usize, _ => all };
+            let inner = 1 + r.below(2);
+            let pat = vec![k, 1000];
+            let codec = codec_table_streamc(&b, &pat, inner as usize);
+            let class = if codec.contains(":err:") { "rejected" } else { "accepted" };
+            g.push(&format!("streamc.damaged.small.m{method}.{class}"), format!("read.streamc bytes={} codec={codec} consume={k},1000 inner={inner} dmg={method} after={}", hex(&b), hex(&after)));
         }
         // (c) liars
         for _ in 0..500 * scale {
@@ -1066,6 +1395,22 @@ impl Stream for ReadStream {
             // C10: an entry the stream cannot serve (data descriptor / encryption bit) is an error, never data
             if a.contains_key("refuse") && resp != "end=err:unsupported" {
                 f.push(OracleFailure { what: format!("streaming: an encrypted / data-descriptor entry did not end the stream with UnsupportedArchive: `{}`", &resp[..resp.len().min(160)]) });
+            }
+            // C10 / F5: behind a DAMAGED entry — whatever part of it the consumer asked for, data or error — the
+            // stream delivers the next entry intact and then the end of entries
+            if a.contains_key("dmg") {
+                let after = get_hex(&a, "after").unwrap_or_default();
+                let ents: Vec<&str> = resp.split(" | ").skip(1).collect();
+                let want = format!("ok:{}:{}", crc32fast::hash(&after), after.len());
+                if !resp.starts_with("end=ok files=2") || ents.len() != 2 || ents[1].split(" got=").nth(1) != Some(want.as_str()) {
+                    f.push(OracleFailure { what: format!("C10: the entry behind a damaged entry is not delivered intact (want got={want}): `{}`", &resp[..resp.len().min(60)]) });
+                }
+                let k: usize = a.get("consume").and_then(|s| s.split(',').next()).and_then(|x| x.parse().ok()).unwrap_or(0);
+                let got0 = ents.first().and_then(|e| e.split(" got=").nth(1)).unwrap_or("");
+                // never MORE than asked for, and data only in the amount asked for
+                if got0.starts_with("ok:") && got0.rsplit(':').next().and_then(|x| x.parse::<usize>().ok()).map(|n| n > k).unwrap_or(true) {
+                    f.push(OracleFailure { what: format!("C10: damaged entry, {k} bytes requested: `{got0}`") });
+                }
             }
             // C10: the streamed entries are the seekable reader's entries — names, method, timestamp, CRC, sizes —
             // and each consumer sees the prefix of the seekable reader's content it asked for
